@@ -296,3 +296,129 @@ def real_tbt_custom(factory, lines):
     if la != lb or list(a.instructions) != list(b.instructions):
         out["entry_points_differ"] = [la, lb]
     return out
+
+
+# ---- parser histories: parse(text) must be a function of the text only ------------------------------
+
+def mutable_operands(sub):
+    """[(instruction index, operand index, operand)] of the in-place mutable operand objects"""
+    from netqasm.lang import operand as op
+    return [(k, j, o) for k, i in enumerate(sub.instructions) for j, o in enumerate(i.operands)
+            if isinstance(o, (op.ArrayEntry, op.ArraySlice))]
+
+
+def mutate_parsed(sub, rng):
+    """one in-place edit of a parsed Subroutine (what a caller that owns the result may do): rename a
+    register / re-address inside an ArrayEntry or ArraySlice, assign an operand field of an
+    instruction, or edit the instruction list.  Returns a description or None."""
+    from netqasm.lang import operand as op
+    from netqasm.lang.encoding import RegisterName
+    muts = mutable_operands(sub)
+    r = rng.random()
+    if muts and r < 0.6:
+        k, j, o = rng.choice(muts)
+        attr = rng.choice(["address"] + (["index"] if isinstance(o, op.ArrayEntry) else ["start", "stop"]))
+        if attr == "address":
+            v = rng.choice([0, 1, 77, -5])
+            o.address = op.Address(v)
+        else:
+            v = [rng.randrange(4), rng.choice([12, 13, 14, 15])]
+            setattr(o, attr, op.Register(RegisterName(v[0]), v[1]))
+        return {"mutate": "operand-object", "instr": k, "slot": j, "attr": attr, "value": v}
+    with_ops = [k for k, i in enumerate(sub.instructions) if H.shape_of(type(i))]
+    if with_ops and r < 0.85:
+        k = rng.choice(with_ops)
+        inst = sub.instructions[k]
+        shape = H.shape_of(type(inst))
+        j = rng.randrange(len(shape))
+        import copy as _cp
+        o = _cp.deepcopy(rng.choice(H.values_for(shape[j], rng, 1)))   # a private object: no harness aliasing
+        via = rng.choice(setter_aliases(type(inst))[j])
+        setattr(inst, via, o)
+        return {"mutate": "instr-field", "instr": k, "via": via, "operand": H.operand_to_json(o)}
+    if sub.instructions:
+        if rng.random() < 0.5:
+            sub.instructions.pop(rng.randrange(len(sub.instructions)))
+            return {"mutate": "list-pop"}
+        import copy as _cp
+        sub.instructions.append(_cp.deepcopy(sub.instructions[0]))
+        return {"mutate": "list-append-copy-of-first"}
+    return None
+
+
+def snapshot_sub(sub):
+    try:
+        return [H.instr_to_json(i) for i in sub.instructions]
+    except Exception as e:
+        return {"unreadable": type(e).__name__}
+
+
+def run_parse_history(pool, rng, n_steps):
+    """pool: [(flavour, lines, reference instruction JSON list)].  Parses texts (the same one again,
+    texts sharing operand strings, others), edits the parsed results in place in between.  Every parse
+    must equal its reference, and an edit of one result must not show in any other live result.
+    Returns (steps, problems)."""
+    steps, problems, live = [], [], []
+    last = None
+    for _ in range(n_steps):
+        entry = last if (last is not None and rng.random() < 0.45) else rng.choice(pool)
+        last = entry
+        fname, lines, ref = entry
+        rp, sub = real_parse(fname, lines)
+        steps.append({"parse": lines, "fl": fname})
+        if rp != {"is": ref}:
+            problems.append({"step": len(steps), "what": "a parse differs from the reference parse of the same text",
+                             "text": lines, "fl": fname, "reference": ref, "got": rp})
+        if sub is None:
+            continue
+        # two equal lines of one text must not share a mutable operand behaviourally: checked by the edits
+        live.append(sub)
+        for _k in range(rng.randrange(0, 3)):
+            tgt = rng.choice(live)
+            snaps = [snapshot_sub(s) for s in live]
+            desc = mutate_parsed(tgt, rng)
+            if desc is None:
+                continue
+            steps.append(dict(desc, of_parse=live.index(tgt)))
+            if desc["mutate"] == "operand-object":
+                # within the edited result only the addressed operand may change
+                now = snapshot_sub(tgt)
+                was = snaps[live.index(tgt)]
+                if isinstance(now, list) and isinstance(was, list) and len(now) == len(was):
+                    other = [k for k, (a, b) in enumerate(zip(was, now)) if a != b and k != desc["instr"]]
+                    if other:
+                        problems.append({"step": len(steps), "what": "editing an operand of one parsed instruction "
+                                         "changed another instruction of the same parsed subroutine",
+                                         "changed_instructions": other})
+            for s_, sn in zip(live, snaps):
+                if s_ is tgt:
+                    continue
+                now = snapshot_sub(s_)
+                if now != sn:
+                    problems.append({"step": len(steps), "what": "editing one parse result changed another parse "
+                                     "result", "other_result": live.index(s_), "was": sn, "is_now": now})
+    return steps, problems
+
+
+_FRESH = r"""
+import sys, json
+sys.path.insert(0, %r)
+sys.path.insert(0, %r)
+from harness import text as X
+cases = json.loads(sys.stdin.read())
+print(json.dumps([X.real_parse(f, ls)[0] for f, ls in cases]))
+"""
+
+
+def fresh_interpreter_parse(cases):
+    """parse (flavour, lines) pairs in a fresh interpreter; list of {'is':…}/{'err':…}, or None"""
+    import json as _json
+    import subprocess
+    import sys as _sys
+    try:
+        p = subprocess.run([_sys.executable, "-c", _FRESH % (common.REPO, common.VERIF)],
+                           input=_json.dumps(cases), capture_output=True, text=True, timeout=120,
+                           env=dict(__import__("os").environ, NETQASM_REPO=common.REPO))
+        return _json.loads(p.stdout.strip().split("\n")[-1])
+    except Exception:
+        return None
